@@ -176,8 +176,10 @@ def verify_and_or_table(run):
 def build(run):
     run.assume("A-REAL", "A-NP", "A-PY", "A-MSG", "A-LOG", "A-LISTVAL", "A-ACTVAL", "A-WF")
     rp = {"module": W_N, "func": "replay_antecedent", "kwargs": {}, "vars": {}}
+    # "a loaded rule": Rule.load rebuilds the expression tree unconditionally from the CURRENT antecedent text (driver shared with C13)
+    from props import C13
     for fq, f in (("rule.Antecedent.activation_degree", verify_activation_degree), ("rule.Rule.activate_with", verify_activate_with),
-                  ("factory.FunctionFactory/and_or_table", verify_and_or_table)):
+                  ("factory.FunctionFactory/and_or_table", verify_and_or_table), ("rule.Rule.load", C13.verify_rule_load)):
         try:
             f(run)
         except Unsupported as ex_:
